@@ -1,8 +1,8 @@
 //@unit c17_costs__pins props=C17 widths=u32
 //@use prelude/head.rs
 // not under contract (see propnotes/C17.json): the rest of the sentence generator
-//@pin file=cfgrammar/src/lib/yacc/grammar.rs fn=min_sentence sha=d842a9d4f1ac28aa
-//@pin file=cfgrammar/src/lib/yacc/grammar.rs fn=min_sentences sha=38653f4a280ec033
+//@pin file=cfgrammar/src/lib/yacc/grammar.rs fn=min_sentence sha=740f7593fc7b9784
+//@pin file=cfgrammar/src/lib/yacc/grammar.rs fn=min_sentences sha=c5704ec97a7289a9
 //@pin file=cfgrammar/src/lib/yacc/grammar.rs fn=min_sentence_cost sha=f7e9e5217f7e2415
 //@pin file=cfgrammar/src/lib/yacc/grammar.rs fn=max_sentence_cost sha=dc93c7b2ab1270d4
 //@use prelude/tail.rs
